@@ -3,6 +3,7 @@
 package sstables
 
 import (
+	"os"
 	"github.com/thomasjungblut/go-sstables/skiplist"
 	"github.com/thomasjungblut/go-sstables/vrt"
 )
@@ -108,4 +109,82 @@ func H_C11_MergeFaults() {
 	vrt.TraceBool("err", err != nil)
 	vrt.Trace("written", uint64(len(w.keys)))
 	vrt.Reach("faults/end")
+}
+
+// H_C11_WriterFiles: a table is written with the stream writer while every write to ONE of its four files fails
+// (engine: the k-th mutating call on the model file system fails; natively: the file name is a symbolic link to
+// /dev/full, so the file opens and every write to it fails with "no space left"). The writer must report an error
+// from WriteNext or Close - or, where it reports success, the table must read back completely (the bloom filter
+// file: the library absorbs its write errors and a table without a readable filter is read without one).
+func H_C11_WriterFiles() {
+	fs := vEnv()
+	defer fs.Cleanup()
+	if vrt.Symbolic() {
+		writerFilesOne(fs, fs.Path("t"), "")
+	} else {
+		// natively a write to one of the files fails (a link to /dev/full); the engine's operation number does not
+		// name a file, so every file takes its turn on the counterexample's input
+		vrt.Range("fault", 0, 23)
+		for _, name := range []string{IndexFileName, DataFileName, MetaFileName, BloomFileName} {
+			writerFilesOne(fs, fs.Path("t-"+name), name)
+		}
+	}
+	vrt.TraceBool("done", true)
+	vrt.Reach("writerfiles/end")
+}
+
+func writerFilesOne(fs *vrt.FS, dir string, linked string) {
+	fs.MkdirAll(dir)
+	keys := [][]byte{{'a'}, {'b'}}
+	vals := [][]byte{{vrt.Byte("v0")}, nil}
+	hit := false
+	if vrt.Symbolic() {
+		fs.ArmOpFault(vrt.Range("fault", 0, 23))
+	} else {
+		if err := os.Symlink("/dev/full", dir+"/"+linked); err != nil {
+			panic(err)
+		}
+		hit = true
+	}
+	w, err := NewSSTableStreamWriter(WriteBasePath(dir), WithKeyComparator(skiplist.BytesComparator{}), WriteBufferSizeBytes(64))
+	vrt.Assert(err == nil, "writerfiles/new-writer-no-error")
+	failed := w.Open() != nil
+	if !failed {
+		for i := range keys {
+			if w.WriteNext(keys[i], vals[i]) != nil {
+				failed = true
+				break
+			}
+		}
+		if w.Close() != nil {
+			failed = true
+		}
+	}
+	if vrt.Symbolic() {
+		hit = fs.OpFaultHit()
+		fs.DisarmOpFault()
+	}
+	if hit && !failed {
+		// success reported although writes failed: then nothing may be missing
+		vrt.Reach("writerfiles/fault-absorbed")
+		if !vrt.Symbolic() {
+			// (the link target cannot be read back - /dev/full reads as endless zeros: what the failed writes
+			// leave behind is an empty file, or no filter file)
+			os.Remove(dir + "/" + linked)
+			if linked != BloomFileName {
+				os.WriteFile(dir+"/"+linked, nil, 0o666)
+			}
+		}
+		r, rerr := NewSSTableReader(ReadBasePath(dir), ReadBufferSizeBytes(64))
+		vrt.Assert(rerr == nil, "writerfiles/success-reported-means-the-table-opens")
+		if rerr == nil {
+			for i := range keys {
+				got, gerr := r.Get(keys[i])
+				vrt.Assert(gerr == nil && vrt.SameBytes(got, vals[i]), "writerfiles/success-reported-means-nothing-is-missing")
+			}
+			r.Close()
+		}
+	} else if hit {
+		vrt.Reach("writerfiles/fault-reported")
+	}
 }
